@@ -50,6 +50,11 @@ pub fn replay_wire(args: &Args) {
             _ => {
                 if verdict == "must_reject" {
                     rep.bad("C03", "malformed datagram accepted", case);
+                    // C02 speaks about every accepted datagram: it must still re-encode to itself
+                    let re = out_to_bytes(pkt.as_ref().unwrap(), Some(None));
+                    if re["k"] != "ok" || re["bytes"] != v["b"] {
+                        rep.bad("C02", "accepted (malformed) datagram does not re-encode to itself", json!({"b": v["b"], "re": re}));
+                    }
                     continue;
                 }
                 let got = &out["msg"];
